@@ -85,22 +85,41 @@ def rule_r1_add(ck, prog, f):
     swaps = g.calls('AtomicUniquePtr::SwapIfNull')
     if not swaps:
         raise AnalysisBroken('Add: no SwapIfNull')
-    full_rel = None
-    full_edges = []
+    # the fullness relation is the relation that holds on the edge the `return false` is behind - taken with the polarity of that
+    # edge, so `if (head - tail >= cap - 1)`, `if (!(head - tail < cap - 1))` and a named boolean for either give the same relation
+    def edge_rel(a, lab):
+        if not lab or not isinstance(lab[0], int):
+            return None
+        rel = relation(g, rd, lab[1], lab[0], a.ctx, lab[2])
+        if rel and rel[0] == '>=0' and {s for (s, _v) in rel[1]} >= {'this.head_', 'this.tail_'}:
+            return rel
+        return None
+
+    def neg_rel(rel):
+        d = {s_: -v_ for (s_, v_) in rel[1]}
+        d['1'] = d.get('1', 0) - 1
+        return ('>=0', frozenset((s_, v_) for s_, v_ in d.items() if v_ != 0))
+    cands = []
     for p in g.points:
         for (q, lab) in p.succ:
-            if lab and isinstance(lab[0], int):
-                rel = relation(g, rd, lab[1], lab[0], p.ctx, True)
-                if rel and rel[0] == '>=0' and {s for (s, _v) in rel[1]} >= {'this.head_', 'this.tail_'}:
-                    full_rel = rel
+            r_ = edge_rel(p, lab)
+            if r_ is not None and r_ not in cands:
+                cands.append(r_)
+    full_rel = None
+    false_rets = [rp for rp in g.returns() if rp.n.get('e') is not None and strip_casts(f, rp.n['e']).get('v') == 0]
+    for r_ in cands:
+        if false_rets and all(g.must_pass_edge(rp, lambda a, b, lab, _r=r_: edge_rel(a, lab) == _r) for rp in false_rets):
+            full_rel = r_
+    if full_rel is None and cands:
+        # no relation guards the failure return: report against the first candidate (the obligations below then fail)
+        full_rel = sorted(cands, key=lambda r: sorted(r[1]))[0]
+
     def full_edge(want):
         def pred(a, b, lab):
-            if not lab or not isinstance(lab[0], int):
+            rel = edge_rel(a, lab)
+            if rel is None or full_rel is None:
                 return False
-            rel = relation(g, rd, lab[1], lab[0], a.ctx, True)
-            if rel is None or full_rel is None or rel != full_rel:
-                return False
-            return lab[2] is want
+            return rel == (full_rel if want else neg_rel(full_rel))
         return pred
 
     def cas_ok_edge(a, b, lab):
